@@ -41,8 +41,9 @@ func plainCallersOnly(w *World, r *Report, rule, callee string, allowed ...strin
 		if !plain {
 			kind = fmt.Sprintf("%T", s.Instr)
 		}
-		r.check(allow[host] && plain, rule, fmt.Sprintf("%s<-%s(%s)", callee, host, kind), w.instrPos(s.Instr),
-			"called synchronously from its single owner", callee+" is called from "+host+" ("+kind+"): outside the single-producer/single-consumer chain, acknowledgements can overtake earlier flushes")
+		owner := allow[host] || allow[baseName(w.name(outermost(s.Fn)))]
+		r.check(owner && plain, rule, fmt.Sprintf("%s<-%s(%s)", callee, host, kind), w.instrPos(s.Instr),
+			"called synchronously from its single owner", callee+" is called from "+host+" ("+kind+"): outside the single-owner call chain this rule relies on")
 	}
 }
 
